@@ -105,7 +105,14 @@ def call_isinstance(I, e):
     targ = e.args[1]
     names = []
     for t in (targ.elts if isinstance(targ, ast.Tuple) else [targ]):
-        if isinstance(t, ast.Name):
+        if isinstance(t, ast.Name) and t.id in I.st.env:
+            # a local variable in the type position (e.g. `cls = type(x); isinstance(y, cls)`): its value, not its name
+            tv = I.st.env[t.id]
+            if isinstance(tv, SClass):
+                names.append(tv.name)
+            else:
+                raise Unsupported(f"isinstance against the local variable `{t.id}`")
+        elif isinstance(t, ast.Name):
             names.append(t.id)
         elif isinstance(t, ast.Attribute):
             names.append(t.attr)
